@@ -43,7 +43,18 @@ def mutate_value(rng, v, prof):
     if t == "dict" and rng.random() < 0.85:
         items = [list(x) for x in v[1]]
         for _ in range(rng.randint(1, 2)):
-            k = rng.choice(["ins", "del", "rep", "move", "deep"])
+            k = rng.choice(["ins", "del", "rep", "move", "deep", "renins", "renins"])
+            if k == "renins" and len(items) >= 2:
+                # a key is renamed and another key is added right behind it (delete next to two inserts)
+                i = rng.randrange(len(items) - 1)
+                for _k in range(2):
+                    key = V.gen_hashable(rng, prof, 1)
+                    if not any(V._safe_eq(V.pyval(key), V.pyval(k2)) for k2, _ in items):
+                        if _k == 0:
+                            items[i] = [key, items[i][1]]
+                        else:
+                            items.insert(i + 2 if i + 2 <= len(items) else len(items), [key, V.gen_value(rng, prof, 0, False)])
+                continue
             if k == "ins" or not items:
                 key = V.gen_hashable(rng, prof, 1)
                 if not any(V._safe_eq(V.pyval(key), V.pyval(k2)) for k2, _ in items):
